@@ -71,6 +71,12 @@ def cases(tier, seed):
                     if dt == "f32" and cfg.get("cg_tolerance", 1) == 1e-4 and False:
                         continue
                     out.append({"name": name, "term": term, "kind": kind, "batch": b, "dt": dt, "cfg": cfg})
+    # a size and spectrum (n = 24, eigenvalues 1 .. 1e3) at which CG does not converge exactly within a handful of steps: the stopping rule matters
+    d24 = ["Dense", {"n": 24, "m": 24, "kind": "psd_spread"}]
+    for nm, term in (("DenseSpread24", d24), ("AddedDiagSpread24", ["AddedDiag", {}, d24, ["Diag", {"n": 24}]])):
+        for b in ([], [2]):
+            for cfg in LATTICE_QUICK:
+                out.append({"name": nm, "term": term, "kind": "pd", "batch": b, "dt": "f64", "cfg": cfg})
     return out
 
 
